@@ -1,8 +1,15 @@
 #!/usr/bin/env python3
-"""tools/make_results.py <mutant-sweep-log> : writes mutants/RESULTS.md from the sweep log rows and seeded/*/meta.json."""
+"""tools/make_results.py <mutant-sweep-log> [seed-sweep-log] : writes mutants/RESULTS.md from the sweep log rows and seeded/*/meta.json."""
 import glob, json, os, re, sys
 HERE = os.path.dirname(os.path.dirname(os.path.abspath(__file__)))
 rows = [l.strip() for l in open(sys.argv[1]) if l.startswith('| ')] if len(sys.argv) > 1 else []
+sweep = {}
+if len(sys.argv) > 2:
+  for l in open(sys.argv[2]):
+    if l.startswith('| '):
+      c = [x.strip() for x in l.strip().strip('|').split('|')]
+      if len(c) >= 3:
+        sweep[c[0]] = c[2].replace('rc=1', 'caught').replace('rc=0', 'not caught').replace('rc=2', 'harness error').replace('rc=3', 'patch failed')
 out = ['# Sensitivity results', '',
        'All runs: quick tier, VERIF_SEED=1, against a scratch copy of /repo with one change applied',
        '(`tools/mutate.sh`, `tools/seed_eval.sh`). "caught" = the check exits 1 with a VIOLATION line.', '',
@@ -10,7 +17,7 @@ out = ['# Sensitivity results', '',
        'Each sub-agent saw only the text of one property and a scratch worktree; every change was confirmed here:',
        'the patch applies to /repo HEAD, `tools/baseline_check.py` reports missing=0 on the patched tree, the',
        'demonstration exits 0 on the clean tree and non-zero on the patched tree.', '',
-       '| change | property | caught by (quick) | what it is / what it needs |', '|---|---|---|---|']
+       '| change | property | caught by (quick) | last sweep (current machinery, seed 1) | what it is / what it needs |', '|---|---|---|---|---|']
 metas = [(os.path.basename(os.path.dirname(p)), json.load(open(p)))
          for p in sorted(glob.glob(os.path.join(HERE, 'seeded', '*', 'meta.json')))]
 n_all = len(metas)
@@ -23,7 +30,7 @@ out[-2:-2] = ['%d changes in %d rounds; %d were at first missed by the check of 
                   n_all, max(int(d.get('round', 1)) for _, d in metas), n_missed_first, n_own,
                   n_all - n_own - n_obsolete, n_obsolete), '']
 for sid, d in metas:
-  out.append('| seeded/%s | %s | %s | %s |' % (sid, d.get('property', sid[:3]), ', '.join(d.get('caught_by_quick_checks', [])) or 'MISSED',
+  out.append('| seeded/%s | %s | %s | %s | %s |' % (sid, d.get('property', sid[:3]), ', '.join(d.get('caught_by_quick_checks', [])) or ('obsolete' if d.get('obsolete') else 'MISSED'), sweep.get(sid, ''),
                                                (d.get('verifier_note') or d.get('summary', '')).replace('|', '/').replace('\n', ' ')))
 out += ['', '## Hand-written mutants (mutants/*.patch)', '',
         'The first check named is the one the mutant was written for; further checks (mutants/EXTRA) show which',
